@@ -8,7 +8,7 @@
    tol from both ends.  `has_pinch`: some row is zero. *)
 From OP Require Import gen.Consts model.Base model.Pockets
   proofs.PocketsFuel proofs.PocketsPL proofs.PocketsZ proofs.PocketsSim proofs.PocketsTop proofs.PocketsSpec
-  proofs.PocketsProfiles proofs.PocketsValley proofs.PocketsGreatest proofs.PocketsExamples.
+  proofs.PocketsProfiles proofs.PocketsValley proofs.PocketsGreatest proofs.PocketsExamples proofs.PocketsBreakpoints.
 Local Open Scope Q_scope.
 
 (* fuel_suffices: the sweep as coded terminates on EVERY non-empty table (no robustness needed): the model never
@@ -158,6 +158,13 @@ Theorem C07_D2_model_table :
 Proof. exact d2_model. Qed.
 Print Assumptions C07_D2_model_table.
 
+(* pinned: repaired defect D56 (pocket closing within tol of a row below the pinch) -- the model flattens the exit row *)
+Theorem C07_D56_model_column :
+  robust_b tol d56_T d56_H = false /\
+  match gcc_np tol d56_T d56_H with Ok m => map rNP m | Err _ => [] end = [200; 200; 0; (199995 # 10000); 20; 20; 20; (105 # 4)].
+Proof. exact d56_model. Qed.
+Print Assumptions C07_D56_model_column.
+
 Theorem C07_predicate_holds_on_examples : model_ok d2_T d2_H = true /\ model_ok ex2_T ex2_H = true.
 Proof. exact examples_predicate. Qed.
 Print Assumptions C07_predicate_holds_on_examples.
@@ -165,3 +172,63 @@ Print Assumptions C07_predicate_holds_on_examples.
 Theorem C07_robust_is_a_real_restriction : robust_b tol [30; 20; 10] [5; (50000001 # 10000000); 0] = false.
 Proof. exact not_robust_example. Qed.
 Print Assumptions C07_robust_is_a_real_restriction.
+
+(* ====================================================================================================================== *)
+(* np_breakpoints (was open: checked on outputs only by clause 2 of P_np): WHICH rows the output has.                      *)
+(* `Weave inp bps out` (proofs/PocketsBreakpoints.v): out is inp, row by row in order with the same temperature and the    *)
+(* same H_net (only H_net_np may differ), with the rows bps inserted, in their order.  `expected_bps` (model/Pockets.v,    *)
+(* independent specification): sweeping from either end towards the pinch with M = minimum of the rows visited so far,     *)
+(* the interval prev -> next gets a breakpoint iff H prev > M > H next (a pocket entered at level M closes strictly        *)
+(* inside it), at the temperature cross_at M prev next where the segment takes the level M again.                          *)
+(* ====================================================================================================================== *)
+
+(* a breakpoint exists exactly where a pocket closes, and no other rows are added: the output rows are the input rows, in
+   order, plus exactly one inserted row at each temperature of the specification's list, in that order *)
+Theorem C07_breakpoints_exactly_where_pockets_close :
+  forall Ts Hs out, robust_b tol Ts Hs = true -> has_pinch tol Hs = true -> gcc_np tol Ts Hs = Ok out ->
+  exists bps, Weave (init_rows Ts Hs) bps out /\ Forall2 (fun b t => rT b == t) bps (expected_bps tol Ts Hs).
+Proof. intros Ts Hs out. exact (breakpoints tol Ts Hs out tol_pos). Qed.
+Print Assumptions C07_breakpoints_exactly_where_pockets_close.
+
+(* hence the number of rows added equals the number of intervals in which a pocket closes strictly inside *)
+Theorem C07_rows_added_count :
+  forall Ts Hs out, robust_b tol Ts Hs = true -> has_pinch tol Hs = true -> gcc_np tol Ts Hs = Ok out ->
+  List.length out = (List.length Ts + List.length (expected_bps tol Ts Hs))%nat.
+Proof. intros Ts Hs out. exact (rows_added tol Ts Hs out tol_pos). Qed.
+Print Assumptions C07_rows_added_count.
+
+(* what `Weave` gives for a single row: it is an input row (same T, same H_net) or one of the inserted rows *)
+Theorem C07_every_row_is_input_or_breakpoint :
+  forall inp bps out r, Weave inp bps out -> In r out ->
+  (exists r1, In r1 inp /\ rT r = rT r1 /\ rH r = rH r1) \/ In r bps.
+Proof. intros inp bps out r. exact (Weave_in_out inp bps out r). Qed.
+Print Assumptions C07_every_row_is_input_or_breakpoint.
+
+(* the crossing temperature is THE point of its interval at which the curve takes the level M (unique: the segment is
+   strictly monotone there) *)
+Theorem C07_crossing_is_unique :
+  forall M (a b : pt), ~ fst b == fst a -> ~ snd b == snd a ->
+  seg a b (cross_at M a b) == M /\ (forall t, seg a b t == M -> t == cross_at M a b).
+Proof. intros M a b Hf Hs. exact (conj (cross_at_on_segment M a b Hf Hs) (fun t => cross_at_unique M a b t Hf Hs)). Qed.
+Print Assumptions C07_crossing_is_unique.
+
+(* curve unchanged, WHOLE table (both sides of the pinch and the rows between the pinches, not per side): the H_net column
+   of the output, read as a piecewise-linear function of temperature, is the input GCC at every temperature of the range *)
+Theorem C07_curve_unchanged_whole_table :
+  forall Ts Hs out, robust_b tol Ts Hs = true -> has_pinch tol Hs = true -> gcc_np tol Ts Hs = Ok out ->
+  forall x, last Ts 0 <= x <= hd 0 Ts -> pl_desc (map rT out) (map rH out) x == gcc_at Ts Hs x.
+Proof. intros Ts Hs out. exact (curve_unchanged tol Ts Hs out tol_pos). Qed.
+Print Assumptions C07_curve_unchanged_whole_table.
+
+(* in particular every row -- kept or inserted -- carries the interpolated H_net of the input curve *)
+Theorem C07_rows_on_input_curve :
+  forall Ts Hs out, robust_b tol Ts Hs = true -> has_pinch tol Hs = true -> gcc_np tol Ts Hs = Ok out ->
+  forall r, In r out -> rH r == gcc_at Ts Hs (rT r).
+Proof. intros Ts Hs out. exact (rows_on_curve tol Ts Hs out tol_pos). Qed.
+Print Assumptions C07_rows_on_input_curve.
+
+(* non-vacuity: the D2 curve has 8 rows and three pockets closing inside an interval; the model's table (C07_D2_model_table)
+   has 11 rows, the three extra ones at exactly these temperatures *)
+Theorem C07_breakpoints_nonvacuous_D2 : expected_bps tol d2_T d2_H = [500 # 3; 130; 280 # 3] /\ List.length d2_T = 8%nat.
+Proof. exact d2_expected_bps. Qed.
+Print Assumptions C07_breakpoints_nonvacuous_D2.
